@@ -406,10 +406,14 @@ class AggregatedFrame(ProtocolDataUnit):
         agf_pdu = AggregatedFrame(dsap, ssap)
         offset, size = offset + 2, size - 2
         while size > 0:
+            if size < 2:
+                raise DecodeError("aggregated PDU length field error in AGF")
             try:
                 (pdu_size,) = struct.unpack_from('!H', data, offset)
             except struct.error:
                 raise DecodeError("aggregated PDU length field error in AGF")
+            if pdu_size > size - 2:
+                raise DecodeError("aggregated PDU exceeds the AGF PDU size")
             agf_pdu.append(decode(data, offset+2, pdu_size))
             offset, size = offset + 2 + pdu_size, size - 2 - pdu_size
         return agf_pdu
